@@ -7,38 +7,13 @@ Local Open Scope Z_scope.
 (* Queries are a function of the table alone: a loader that reconstructs the same table from the stored regions
    (same lookup function) gives bit-identical answers for every query and every state.  What remains for the
    round trip is that the regions are stored and found again at the same offsets (layout arithmetic, below). *)
+From Kenlm Require Import LM.TableExt.
 Theorem C04_same_table_same_answers : forall N T1 T2 K s w ctx,
   (forall k, T1 k = T2 k) ->
   full_score N T1 s w = full_score N T2 s w /\
   full_score_forgot N T1 K ctx w = full_score_forgot N T2 K ctx w /\
   get_state N T1 ctx = get_state N T2 ctx.
-Proof.
-  intros N T1 T2 K s w ctx Heq.
-  (* without functional extensionality: all three functions only ever apply the table *)
-  assert (R : forall hist om2 node bos nu r, resume N T1 hist om2 node bos nu r = resume N T2 hist om2 node bos nu r).
-  { induction hist as [|h hist IH]; intros; cbn [resume]; [reflexivity|]. rewrite !Heq.
-    destruct (r_indep r); [reflexivity|]. destruct (Nat.eqb om2 (N - 2)); [reflexivity|].
-    destruct (T2 (node ++ [h])); [apply IH|reflexivity]. }
-  assert (U : forall x, uni T1 x = uni T2 x) by (intros x; unfold uni; rewrite Heq; reflexivity).
-  assert (S : forall c x, score_except_backoff N T1 c x = score_except_backoff N T2 c x).
-  { intros c x. unfold score_except_backoff. rewrite U. destruct c; [reflexivity|]. rewrite R. reflexivity. }
-  assert (C : forall rest node, charge T1 rest node = charge T2 rest node).
-  { induction rest as [|x rest IH]; intros; cbn [charge]; [reflexivity|]. rewrite Heq. destruct (T2 (node ++ [x])); [rewrite IH|]; reflexivity. }
-  assert (W : forall rest node b, trie_walk T1 rest node b = trie_walk T2 rest node b).
-  { induction rest as [|x rest IH]; intros; cbn [trie_walk]; [reflexivity|]. destruct b; [reflexivity|]. rewrite Heq.
-    destruct (T2 (node ++ [x])); [apply IH|reflexivity]. }
-  assert (G : forall rest node bos len i, get_state_loop T1 rest node bos len i = get_state_loop T2 rest node bos len i).
-  { induction rest as [|x rest IH]; intros; cbn [get_state_loop]; [reflexivity|]. rewrite Heq. destruct (T2 (node ++ [x])); [apply IH|reflexivity]. }
-  split; [unfold full_score; rewrite S; reflexivity|]. split.
-  - unfold full_score_forgot. rewrite S. destruct (score_except_backoff N T2 (firstn (N - 1) ctx) w) as [r out].
-    destruct (Nat.ltb _ _); [reflexivity|]. destruct (Nat.leb _ _).
-    + destruct (firstn (N - 1) ctx); [reflexivity|]. rewrite U, C. reflexivity.
-    + unfold fast_make_node. destruct K.
-      * rewrite C. reflexivity.
-      * destruct (firstn (r_len r - 1) (firstn (N - 1) ctx)) as [|x rest]; [rewrite C; reflexivity|].
-        rewrite U, W. destruct (trie_walk T2 rest [x] (negb (e_left (uni T2 x)))); [rewrite C|]; reflexivity.
-  - unfold get_state. destruct (firstn (N - 1) ctx); [reflexivity|]. rewrite U, G. reflexivity.
-Qed.
+Proof. exact same_table_same_answers. Qed.
 
 (* ------------------------------------------------------------------------------------------------------------
    The file round trip, over the C09 development: the system-call trace of a binary build (finish_trace, both
@@ -294,3 +269,41 @@ Theorem C04_trie_file_loads_back : forall pm_ok words_ok (array : bool) cfg pm n
   firstn (length (w_vocab w)) (skipn (header_size n) (body_of w iv)) = map Z.to_nat (sorted_vocab_bytes words) /\
   firstn (length (w_search w)) (skipn (header_size n + length (w_vocab w) + 0) (body_of w iv)) = map Z.to_nat (C03.TrieImage.trie_image array cfg n t pz).
 Proof. exact trie_file_loads_back. Qed.
+
+(* ---- reading the search structure back (C04/TrieParse.v, TrieParseProofs.v, MemBound.v, TrieParseEnd.v) ---------------------------------
+   parse_trie models TrieSearch::SetupMemory on a mapped file: every array is a slice of the bytes, positioned by the Size() functions
+   of the header's counts and the configuration; ArrayBhiksha's offset table at the next 8-byte boundary + 8 of its region.
+   C04_parse_trie_roundtrip: for ANY level lists with ordered next pointers and word-id-addressed unigrams, parsing the bytes of the
+   structure built from them gives that structure back -- records, closing pointers, every bit-packed memory (C04_array_memory_fits:
+   the builder's writes stay inside Size() bytes, so the bytes determine the memory), the offset tables.  C04_loaded_memory_is_built_memory /
+   C04_file_table_is_mem_table: for every table with the loaders' invariant, what the loader sets up over the file's search region is what
+   the builder had in memory; the table it answers with is mem_table, about which C01_trie_memory_end_to_end, C02_memory_state_sufficient
+   and C08_memory_any_bracketing_sentence speak. *)
+From Kenlm Require Import C03.TrieEndToEnd C04.MemBound C04.TrieParse C04.TrieParseProofs C04.TrieParseEnd.
+Theorem C04_parse_trie_roundtrip : forall (array : bool) cfg (ls : levels pb) vocab rest,
+  (0 <= cfg)%Z -> (2 <= length ls)%nat -> Lok vocab ls -> dense_words (nth 0 ls []) ->
+  parse_trie array cfg (map (fun l : list (rec pb) => Z.of_nat (length l)) ls) (trie_bytes array cfg (mk_trie array cfg ls) ++ rest)
+  = mk_trie array cfg ls.
+Proof. exact parse_trie_ok. Qed.
+
+Theorem C04_array_memory_fits : forall (array : bool) cfg vocab (l : list (rec pb)) max_next,
+  (0 <= next_bits array (Z.of_nat (length l)) max_next cfg)%Z ->
+  let mm := mk_mid array cfg vocab l max_next in
+  (0 <= mm_mem mm < 2 ^ (8 * C20.ArrayModel.bitpacked_base_size (Z.of_nat (mm_count mm)) (t_max_vocab (mm_par mm)) (63 + t_nb (mm_par mm))))%Z.
+Proof. exact mk_mid_mem_bound. Qed.
+
+Theorem C04_loaded_memory_is_built_memory : forall (array : bool) cfg n V (t : atable) pz M,
+  (2 <= n)%nat -> (0 <= V < 2 ^ 32)%Z -> (0 <= cfg)%Z -> TInv n (alookup t) M -> NoDup (map fst t) ->
+  (forall w, alookup t [w] <> None <-> (Z.of_N w < V)%Z) ->
+  (forall k e, alookup t k = Some e -> (- 2 ^ 24 < e_prob e < 2 ^ 24 /\ - 2 ^ 24 < e_bo e < 2 ^ 24)%Z) ->
+  (Z.of_nat (n * length t) < 2 ^ 57)%Z ->
+  forall rest, parse_trie array cfg (trie_counts n t) (C03.TrieImage.trie_image array cfg n t pz ++ rest) = C03.TrieImage.trie_mem array cfg n t pz.
+Proof. exact parse_image. Qed.
+
+Theorem C04_file_table_is_mem_table : forall (array : bool) cfg n V (t : atable) pz M,
+  (2 <= n)%nat -> (0 <= V < 2 ^ 32)%Z -> (0 <= cfg)%Z -> TInv n (alookup t) M -> NoDup (map fst t) ->
+  (forall w, alookup t [w] <> None <-> (Z.of_N w < V)%Z) ->
+  (forall k e, alookup t k = Some e -> (- 2 ^ 24 < e_prob e < 2 ^ 24 /\ - 2 ^ 24 < e_bo e < 2 ^ 24)%Z) ->
+  (Z.of_nat (n * length t) < 2 ^ 57)%Z ->
+  forall rest k, file_table array cfg n V (trie_counts n t) (C03.TrieImage.trie_image array cfg n t pz ++ rest) k = mem_table array cfg n V t pz k.
+Proof. exact file_table_is_mem_table. Qed.
